@@ -736,6 +736,102 @@ class StructArg(Atom):
         return {"struct"}
 
 
+class PtrPtrOut(Atom):
+    """T **a +intent(out)+dimension(3) / +dimension(na) with 'int *na +intent(out)+hidden':
+    the library hands back a pointer to its own array; Fortran receives a pointer array."""
+
+    py = False
+    lua = False
+
+    def __init__(self, t, form):
+        Atom.__init__(self, "pp_out_%s_%s" % (form, t.id))
+        self.t = t
+        self.form = form  # 'fixed' | 'dyn'
+
+    def decl(self, n):
+        if self.form == "fixed":
+            return ["%s **%s +intent(out)+dimension(3)" % (self.t.cname, n)]
+        return ["%s **%s +intent(out)+dimension(n%s)" % (self.t.cname, n, n), "int *n%s +intent(out)+hidden" % n]
+
+    def cparams(self, n, lang):
+        if self.form == "fixed":
+            return ["%s **%s" % (self.t.cname, n)]
+        return ["%s **%s" % (self.t.cname, n), "int *n%s" % n]
+
+    def body(self, n, lang):
+        arr = "vt_pp_%s_%s" % (self.id, n)
+        post = ["{ static %s %s[4]; int vt_k; for (vt_k = 0; vt_k < 4; vt_k++) %s[vt_k] = (%s)(30 + vt_k); *%s = %s; }" % (self.t.cname, arr, arr, self.t.cname, n, arr)]
+        if self.form == "dyn":
+            post.append("*n%s = 4;" % n)
+        return [], post
+
+    def values(self):
+        return [None]
+
+    def recv(self, n, v):
+        return ""
+
+    def observe(self, v):
+        k = 3 if self.form == "fixed" else 4
+        return [ra(self.t, [(30 + i) if self.t.cls == "int" else float(30 + i) for i in range(k)])]
+
+
+class VoidPtr(Atom):
+    """void *p by value: the library reads the int it points to"""
+
+    py = False
+    lua = False
+
+    def __init__(self):
+        Atom.__init__(self, "voidptr")
+
+    def decl(self, n):
+        return ["void *%s" % n]
+
+    def cparams(self, n, lang):
+        return ["void *%s" % n]
+
+    def body(self, n, lang):
+        return ['vt_txt(" %s=");' % n, "vt_i(*(int *) %s);" % n], ["*(int *) %s = *(int *) %s + 1;" % (n, n)]
+
+    def values(self):
+        return [41, -7]
+
+    def recv(self, n, v):
+        return " %s=%d" % (n, v)
+
+    def observe(self, v):
+        return [rnd(NATIVE["int"], v + 1)]
+
+
+class StrArrIn(Atom):
+    """char **x +intent(in)+rank(1) with int cntx +implied(size(x)): an array of blank padded strings arrives as
+    NUL-terminated, trimmed C strings"""
+
+    py = False
+    lua = False
+
+    def __init__(self):
+        Atom.__init__(self, "strarr_in")
+
+    def decl(self, n):
+        return ["char **%s +intent(in)+rank(1)" % n, "int cnt%s +implied(size(%s))" % (n, n)]
+
+    def cparams(self, n, lang):
+        return ["char **%s" % n, "int cnt%s" % n]
+
+    def body(self, n, lang):
+        return ['vt_txt(" %s=");' % n, "{ int vt_k; vt_i(cnt%s); vt_txt(\":{\"); for (vt_k = 0; vt_k < cnt%s; vt_k++) { if (vt_k) vt_txt(\",\"); vt_z(%s[vt_k]); } vt_txt(\"}\"); }" % (n, n, n)], []
+
+    def values(self):
+        # (declared length, texts)
+        return [(4, ["ab", "c"]), (3, ["", "a b", "xyz"]), (1, ["q"])]
+
+    def recv(self, n, v):
+        ln, texts = v
+        return " %s=%d:{%s}" % (n, len(texts), ",".join(rs(t.rstrip(" ")) for t in texts))
+
+
 def values_of(atom):
     return atom._vals if atom._vals is not None else atom.values()
 
@@ -1248,6 +1344,7 @@ def core_args(level=1):
         A += [Vec(T[t], "in"), Vec(T[t], "out"), Vec(T[t], "inout"), Vec(T[t], "alloc")]
     A += [EnumVal(), ClsArg("ptr"), ClsArg("cref")]
     A += [StructArg(f) for f in ("val", "cptr", "ptr_inout", "ptr_out", "ref_inout", "cref")]
+    A += [PtrPtrOut(T["int"], "fixed"), PtrPtrOut(T["int"], "dyn"), PtrPtrOut(T["double"], "dyn"), VoidPtr(), StrArrIn()]
     return A
 
 
